@@ -18,3 +18,139 @@ package quic
 //@ func (c *Config) handshakeTimeout
 //@   props C14
 //@   modifies nothing
+
+// ---------------- incoming streams map (C15) ----------------
+// concurrency bound: the streams still open plus the credit not yet used never exceed the configured maximum
+//@ pred (m *incomingStreamsMap[T]) imInv() = m.streams != nil && 0 <= m.nextStreamToAccept && m.nextStreamToAccept <= m.nextStreamToOpen && m.nextStreamToOpen <= 4611686018427387907 &&
+//@      m.nextStreamToAccept % 4 == m.nextStreamToOpen % 4 && -1 <= m.maxStream && m.maxStream <= 4611686018427387903 && (m.maxStream == -1 || m.maxStream % 4 == m.nextStreamToOpen % 4) &&
+//@      m.maxNumStreams <= 1152921504606846976 && 0 <= len(m.streams) &&
+//@      forall(k, int64, implies(k >= m.nextStreamToOpen, !has(m.streams, k))) &&
+//@      (m.maxStream < m.nextStreamToOpen || len(m.streams) + (m.maxStream - m.nextStreamToOpen) / 4 + 1 <= m.maxNumStreams)
+
+//@ func (m *incomingStreamsMap[T]) GetOrOpenStream
+//@   props C15
+//@   requires m.imInv() && 0 <= id && id % 4 == m.nextStreamToOpen % 4
+//@   ensures [limit-iff] iff(result1 != nil, id > old(m.maxStream))
+//@   ensures [limit-code] implies(result1 != nil, iserr(result1, qerr.StreamLimitError) && m.nextStreamToOpen == old(m.nextStreamToOpen) && len(m.streams) == old(len(m.streams)))
+//@   ensures [opens] implies(result1 == nil, m.nextStreamToOpen == max(old(m.nextStreamToOpen), id + 4))
+//@   ensures [count] implies(result1 == nil && id >= old(m.nextStreamToOpen), len(m.streams) == old(len(m.streams)) + (id + 4 - old(m.nextStreamToOpen)) / 4)
+//@   ensures [inv] m.imInv()
+//@   ensures [max-kept] m.maxStream == old(m.maxStream) && m.maxNumStreams == old(m.maxNumStreams) && m.nextStreamToAccept == old(m.nextStreamToAccept)
+//@   modifies m.streams[*], m.nextStreamToOpen
+//@ loop (m *incomingStreamsMap[T]) GetOrOpenStream #0
+//@   invariant old(m.nextStreamToOpen) <= newNum && newNum <= id + 4 && newNum % 4 == id % 4
+//@   invariant len(m.streams) == old(len(m.streams)) + (newNum - old(m.nextStreamToOpen)) / 4
+//@   invariant forall(k, int64, implies(k >= newNum, !has(m.streams, k)))
+//@   invariant m.nextStreamToOpen == old(m.nextStreamToOpen) && m.streams == old(m.streams)
+//@   modifies m.streams[*]
+//@   decreases id + 4 - newNum
+
+//@ func (m *incomingStreamsMap[T]) deleteStream
+//@   props C15
+//@   requires m.imInv() && 0 <= id
+//@   ensures [unknown] iff(result != nil, !old(has(m.streams, id)) || (id >= m.nextStreamToAccept && old(m.streams[id].shouldDelete)))
+//@   ensures [error-noop] implies(result != nil, len(m.streams) == old(len(m.streams)) && m.maxStream == old(m.maxStream))
+//@   ensures [deferred] implies(result == nil && id >= m.nextStreamToAccept, has(m.streams, id) && m.streams[id].shouldDelete && len(m.streams) == old(len(m.streams)) && m.maxStream == old(m.maxStream))
+//@   ensures [deleted] implies(result == nil && id < m.nextStreamToAccept, !has(m.streams, id) && len(m.streams) == old(len(m.streams)) - 1)
+//@   ensures [credit-monotone] m.maxStream >= old(m.maxStream)
+//@   ensures [credit-exact] implies(m.maxStream != old(m.maxStream), m.maxStream == m.nextStreamToOpen + 4 * (m.maxNumStreams - len(m.streams) - 1))
+//@   ensures [inv] m.imInv()
+//@   modifies m.streams[*], m.maxStream
+
+//@ func (m *incomingStreamsMap[T]) DeleteStream
+//@   props C15
+//@   requires m.imInv() && 0 <= id
+//@   ensures [state-error] implies(result != nil, iserr(result, qerr.StreamStateError) && len(m.streams) == old(len(m.streams)) && m.maxStream == old(m.maxStream))
+//@   ensures [credit-monotone] m.maxStream >= old(m.maxStream)
+//@   ensures [inv] m.imInv()
+//@   modifies m.streams[*], m.maxStream
+
+// ---------------- outgoing streams map (C15) ----------------
+//@ pred (m *outgoingStreamsMap[T]) omInv() = m.streams != nil && 0 <= m.nextStream && m.nextStream <= 4611686018427387907 && -1 <= m.maxStream && m.maxStream <= 4611686018427387903 &&
+//@      forall(k, int64, implies(k >= m.nextStream, !has(m.streams, k)))
+
+//@ func (m *outgoingStreamsMap[T]) openStream
+//@   props C15
+//@   requires m.omInv() && m.nextStream <= 4611686018427387903
+//@   ensures [id] m.nextStream == old(m.nextStream) + 4 && has(m.streams, old(m.nextStream)) && m.streams[old(m.nextStream)] == result
+//@   ensures [inv] m.omInv()
+//@   ensures [limit-kept] m.maxStream == old(m.maxStream) && m.blockedSent == old(m.blockedSent)
+//@   modifies m.streams[*], m.nextStream
+
+//@ func (m *outgoingStreamsMap[T]) maybeSendBlockedFrame
+//@   props C15
+//@   requires m.maxStream >= -1
+//@   ensures [once] m.blockedSent
+//@   ensures [frame-iff] iff(called("fnvalue") == 1, !old(m.blockedSent))
+//@   modifies m.blockedSent
+
+//@ func (m *outgoingStreamsMap[T]) OpenStream
+//@   props C15
+//@   requires m.omInv()
+//@   ensures [opens-iff] iff(result1 == nil, old(m.closeErr) == nil && old(len(m.openQueue)) == 0 && old(m.nextStream) <= old(m.maxStream))
+//@   ensures [id] implies(result1 == nil, m.nextStream == old(m.nextStream) + 4 && has(m.streams, old(m.nextStream)) && old(m.nextStream) <= m.maxStream)
+//@   ensures [refused] implies(result1 != nil, m.nextStream == old(m.nextStream) && len(m.streams) == old(len(m.streams)))
+//@   ensures [never-beyond-limit] m.nextStream - 4 <= m.maxStream || m.nextStream == old(m.nextStream)
+//@   ensures [inv] m.omInv()
+//@   modifies m.streams[*], m.nextStream, m.blockedSent
+
+//@ func (m *outgoingStreamsMap[T]) GetStream
+//@   props C15
+//@   requires m.omInv()
+//@   ensures [never-opened] iff(result1 != nil, id >= m.nextStream)
+//@   ensures [code] implies(result1 != nil, iserr(result1, qerr.StreamStateError))
+//@   modifies nothing
+
+//@ func (m *outgoingStreamsMap[T]) DeleteStream
+//@   props C15
+//@   requires m.omInv()
+//@   ensures [unknown-iff] iff(result != nil, !old(has(m.streams, id)))
+//@   ensures [code] implies(result != nil, iserr(result, qerr.StreamStateError) && len(m.streams) == old(len(m.streams)))
+//@   ensures [deleted] implies(result == nil, !has(m.streams, id) && len(m.streams) == old(len(m.streams)) - 1)
+//@   ensures [inv] m.omInv()
+//@   modifies m.streams[*]
+
+//@ func (m *outgoingStreamsMap[T]) maybeUnblockOpenSync
+//@   props C15
+//@   modifies nothing
+
+//@ func (m *outgoingStreamsMap[T]) SetMaxStream
+//@   props C15
+//@   requires m.omInv() && -1 <= id && id <= 4611686018427387903
+//@   ensures [monotone] m.maxStream == max(old(m.maxStream), id)
+//@   ensures [epoch] implies(id <= old(m.maxStream), m.blockedSent == old(m.blockedSent))
+//@   ensures [inv] m.omInv()
+//@   modifies m.maxStream, m.blockedSent
+
+// ---------------- streamsMap dispatch (C15) ----------------
+//@ pred (m *streamsMap) smInv() = (m.perspective == protocol.PerspectiveServer || m.perspective == protocol.PerspectiveClient) &&
+//@      m.outgoingBidiStreams != nil && m.outgoingUniStreams != nil && m.incomingBidiStreams != nil && m.incomingUniStreams != nil &&
+//@      m.outgoingBidiStreams.omInv() && m.outgoingUniStreams.omInv() && m.incomingBidiStreams.imInv() && m.incomingUniStreams.imInv() &&
+//@      m.incomingBidiStreams.nextStreamToOpen % 4 == ite(m.perspective == protocol.PerspectiveServer, 0, 1) &&
+//@      m.incomingUniStreams.nextStreamToOpen % 4 == ite(m.perspective == protocol.PerspectiveServer, 2, 3)
+
+//@ func (m *streamsMap) getSendStream
+//@   props C15
+//@   requires m.smInv() && 0 <= id && id <= 4611686018427387903
+//@   let mine = ite(id % 2 == 0, protocol.PerspectiveClient, protocol.PerspectiveServer) == m.perspective
+//@   ensures [direction] implies(id % 4 >= 2 && !mine, iserr(result1, qerr.StreamStateError))
+//@   ensures [never-opened] implies(mine && id % 4 >= 2 && id >= old(m.outgoingUniStreams.nextStream), iserr(result1, qerr.StreamStateError))
+//@   ensures [never-opened-bidi] implies(mine && id % 4 < 2 && id >= old(m.outgoingBidiStreams.nextStream), iserr(result1, qerr.StreamStateError))
+//@   ensures [limit] implies(!mine && id % 4 < 2 && id > old(m.incomingBidiStreams.maxStream), iserr(result1, qerr.StreamLimitError))
+//@   modifies m.incomingBidiStreams.streams[*], m.incomingBidiStreams.nextStreamToOpen
+
+//@ func (m *streamsMap) getReceiveStream
+//@   props C15
+//@   requires m.smInv() && 0 <= id && id <= 4611686018427387903
+//@   let mine = ite(id % 2 == 0, protocol.PerspectiveClient, protocol.PerspectiveServer) == m.perspective
+//@   ensures [direction] implies(id % 4 >= 2 && mine, iserr(result1, qerr.StreamStateError))
+//@   ensures [never-opened-bidi] implies(mine && id % 4 < 2 && id >= old(m.outgoingBidiStreams.nextStream), iserr(result1, qerr.StreamStateError))
+//@   ensures [limit-uni] implies(!mine && id % 4 >= 2 && id > old(m.incomingUniStreams.maxStream), iserr(result1, qerr.StreamLimitError))
+//@   ensures [limit-bidi] implies(!mine && id % 4 < 2 && id > old(m.incomingBidiStreams.maxStream), iserr(result1, qerr.StreamLimitError))
+//@   modifies m.incomingBidiStreams.streams[*], m.incomingBidiStreams.nextStreamToOpen, m.incomingUniStreams.streams[*], m.incomingUniStreams.nextStreamToOpen
+
+//@ func (m *streamsMap) HandleMaxStreamsFrame
+//@   props C15
+//@   requires m.smInv() && 0 <= f.MaxStreamNum && f.MaxStreamNum <= 1152921504606846976 && (f.Type == protocol.StreamTypeUni || f.Type == protocol.StreamTypeBidi)
+//@   ensures [monotone] m.outgoingUniStreams.maxStream >= old(m.outgoingUniStreams.maxStream) && m.outgoingBidiStreams.maxStream >= old(m.outgoingBidiStreams.maxStream)
+//@   modifies m.outgoingUniStreams.maxStream, m.outgoingUniStreams.blockedSent, m.outgoingBidiStreams.maxStream, m.outgoingBidiStreams.blockedSent
